@@ -260,6 +260,13 @@ where
                     let n = p.alphabet.len();
                     let mut idx = vec![0usize; p.depth];
                     idx[..prefix.len()].copy_from_slice(prefix);
+                    // (once per work item, not per leaf: the description is only needed if the
+                    // watchdog fires)
+                    crate::report::watchdog_leaf(|| {
+                        json!({"seed_name": p.seeds[*si].name, "seed_ops": p.seeds[*si].ops,
+                               "ops": prefix.iter().map(|i| &p.alphabet[*i]).collect::<Vec<_>>(),
+                               "note": format!("one of the histories of profile '{}' that start with these ops (depth {})", p.name, p.depth)}).to_string()
+                    });
                     loop {
                         // heavy_from: smallest k such that idx[k+1..] are all zero
                         let mut heavy_from = p.depth;
@@ -276,9 +283,6 @@ where
                             heavy_from,
                             heavy_seed,
                         };
-                        crate::report::watchdog_leaf(|| {
-                            json!({"seed_name": leaf.seed.name, "seed_ops": leaf.seed.ops, "ops": leaf.ops}).to_string()
-                        });
                         f(&mut env, &leaf);
                         // next suffix
                         let mut k = p.depth;
